@@ -10,7 +10,11 @@ import Jrpc.Generated.Facts
       `resetReadDeadline` called from the main loop's pong case — with `writeLk` taken by the caller;
     * `nextMessage: alias.Close` — the reader closes the connection it has just failed to read from
       (repair F34), through the local it captured for that read, never through the field: gorilla documents
-      Close as callable concurrently with all other methods, and it writes no frame;
+      Close as callable concurrently with all other methods, and it writes no frame; the second such site is the
+      hand-over that the connection loop did not take within the timeout (repair F44);
+    * `readFrame: Close` — a read that failed inside a frame closes the connection it was reading from (repair F44),
+      through the field: the read of `c.conn` is ordered before the next assignment, which the redial goroutine makes
+      only after the connection loop has received this goroutine's report on `readError`;
     * `setupPings: SetPongHandler / SetPingHandler` and the capture of the connection in a local
       (`alias`) run before any goroutine of the connection exists or, on reconnect, with `writeLk` held
       by the caller;
@@ -27,6 +31,7 @@ theorem conn_uses :
       "wsConn.nextMessage: alias locked=false",
       "wsConn.nextMessage: alias.NextReader locked=false",
       "wsConn.nextMessage: alias.Close locked=false",
+      "wsConn.nextMessage: alias.Close locked=false",
       "wsConn.nextWriter: NextWriter locked=true",
       "wsConn.sendRequest: WriteJSON locked=true",
       "wsConn.setupPings: SetPongHandler locked=false",
@@ -36,6 +41,7 @@ theorem conn_uses :
       "wsConn.setupPings.func: WriteMessage locked=true",
       "wsConn.tryReconnect.func: assign locked=true",
       "wsConn.tryReconnect.func: call setupPings locked=true",
+      "wsConn.readFrame: Close locked=false",
       "wsConn.handleWsConn: call setupPings locked=false",
       "wsConn.handleWsConn: Close locked=true",
       "wsConn.handleWsConn: call resetReadDeadline locked=true",
